@@ -1,4 +1,7 @@
 import RemocModel.Table.Lemmas
+import RemocModel.Table.ConnSys
+import RemocModel.Table.ConnBridge
+import RemocModel.Table.ConnLog
 set_option linter.unusedSimpArgs false
 
 /-!
@@ -149,3 +152,274 @@ example :
   decide
 
 end Remoc.Table
+
+/-! ## The two-endpoint system (`Table/Conn.lean`): statements over ALL interleavings -/
+
+namespace Remoc.Table.Sys
+open Remoc.Wire Remoc.Table
+
+/-- number of `OpenPort` requests in a wire -/
+def opensInFlight (w : List Msg) : Nat := (reqPorts w).length
+/-- number of answers (`PortOpened` / `Rejected`) in a wire -/
+def answersInFlight (w : List Msg) : Nat := (respPorts w).length
+/-- answers the application has decided whose event the dispatcher has not handled yet
+(`Request::accept_from` / `reject` / drop queued an event on `channel_tx`) -/
+def answersQueued (v : Side) : Nat := (ansPorts v.portQ).length
+
+/-- the credit equation for one direction -/
+def CreditEq (c v : Side) (wcv wvc : List Msg) : Prop :=
+  opensInFlight wcv + v.ep.listenQ.length + v.held.length + answersQueued v + answersInFlight wvc
+    = c.ep.clientPending ∧
+  c.ep.clientPending ≤ v.ep.cfg.cq ∧ c.permits ≤ v.ep.cfg.cq
+
+theorem creditEq_of_reqInv (c v : Side) (wcv wvc : List Msg) (h : ReqInv c v wcv wvc) : CreditEq c v wcv wvc := by
+  have hndo : v.ep.outstanding.Nodup := by
+    have := h.nodup; simp only [reqWhere] at this
+    exact (List.nodup_append.mp (List.nodup_append.mp this).1).2.1
+  have hp : (outWhere v).Perm v.ep.outstanding := (List.perm_ext_iff_of_nodup h.outNodup hndo).mpr h.outMem
+  have hl := hp.length_eq
+  have hpend := h.pend
+  have hperm := h.perm
+  have hcfg := h.cfg
+  simp only [reqWhere, outWhere, List.length_append, List.length_map, Side.permits] at hl hpend hperm
+  refine ⟨?_, ?_, ?_⟩
+  · simp only [opensInFlight, answersInFlight, answersQueued]; omega
+  · omega
+  · simp only [Side.permits]; omega
+
+/-- **Request credit invariant** (C10, all interleavings of two conforming endpoints, any
+`max_ports` and `connect_queue` per side).  In every reachable state, for each direction:
+(`OpenPort` in flight towards X) + |X.listenQ| + (requests held unanswered by X's application) +
+(answers decided but not yet handled by X's dispatcher) + (answers in flight back) equals the
+peer's `clientPending`, which never exceeds the `connect_queue` X advertised; the permits of the
+peer's credit semaphore (queued + pending requests) never exceed it either. -/
+theorem request_credit_invariant (mpA cqA mpB cqB : Nat) (ls : List (Who × Lab)) :
+    let s := run (init mpA cqA mpB cqB) ls
+    CreditEq s.a s.b s.toB s.toA ∧ CreditEq s.b s.a s.toA s.toB := by
+  intro s
+  have hi := inv1_run _ ls (inv1_init mpA cqA mpB cqB)
+  exact ⟨creditEq_of_reqInv _ _ _ _ hi.ab, creditEq_of_reqInv _ _ _ _ hi.ba⟩
+
+/-- **Every request is in exactly one place** and the requests that are somewhere are exactly the
+connecting ports of the requester: on the wire, outstanding at the listener side, or answered with
+the answer on the wire back — never two of these (no duplicate `OpenPort`, no second answer). -/
+theorem request_located_once (mpA cqA mpB cqB : Nat) (ls : List (Who × Lab)) :
+    let s := run (init mpA cqA mpB cqB) ls
+    (reqWhere s.b.ep s.toB s.toA).Nodup ∧
+    (∀ p, lookup s.a.ep.ports p = some .connecting ↔ p ∈ reqWhere s.b.ep s.toB s.toA) ∧
+    (reqWhere s.a.ep s.toA s.toB).Nodup ∧
+    (∀ p, lookup s.b.ep.ports p = some .connecting ↔ p ∈ reqWhere s.a.ep s.toA s.toB) := by
+  intro s
+  have hi := inv1_run _ ls (inv1_init mpA cqA mpB cqB)
+  exact ⟨hi.ab.nodup, hi.ab.conn, hi.ba.nodup, hi.ba.conn⟩
+
+theorem creditEq_room (c v : Side) (wcv wvc : List Msg) (h : CreditEq c v wcv wvc) :
+    opensInFlight wcv + v.ep.listenQ.length ≤ v.ep.cfg.cq := by
+  obtain ⟨h1, h2, _⟩ := h; omega
+
+/-- hence the listener queues never reach the length at which `OpenPort` is refused with
+"too many OpenPort requests" while a request is still in flight -/
+theorem listen_queue_has_room (mpA cqA mpB cqB : Nat) (ls : List (Who × Lab)) :
+    let s := run (init mpA cqA mpB cqB) ls
+    opensInFlight s.toB + s.b.ep.listenQ.length ≤ s.b.ep.cfg.cq ∧
+    opensInFlight s.toA + s.a.ep.listenQ.length ≤ s.a.ep.cfg.cq := by
+  intro s
+  have h := request_credit_invariant mpA cqA mpB cqB ls
+  exact ⟨creditEq_room _ _ _ _ h.1, creditEq_room _ _ _ _ h.2⟩
+
+/-- non-vacuity: A queues two connects (cq of B is 2), one is sent and delivered, B's application
+takes it out of the queue: one request in flight... one held, `clientPending = 2`, both permits used -/
+example :
+    let s := run (init 4 2 4 2) [(.A, .startConnect 1 true), (.A, .startConnect 2 false), (.A, .dispConn),
+      (.B, .deliver), (.B, .takeReq true), (.A, .dispConn)]
+    opensInFlight s.toB = 1 ∧ s.b.held = [1] ∧ s.a.ep.clientPending = 2 ∧ s.a.permits = 2 ∧
+    stepSide s.a s.toA (.startConnect 3 true) = none := by
+  decide
+
+end Remoc.Table.Sys
+
+namespace Remoc.Table.Sys
+open Remoc.Wire Remoc.Table
+
+/-- **The right ports are paired, globally** (all interleavings).  In every reachable state:
+* a connected port `p` of one side with remote port `q`, of which a local half is still alive, has a
+  *live partner*: the peer's entry `q` is connected back to `p`, or is still connecting with the
+  `PortOpened q p` in flight (`Live`);
+* **no third port**: at most one port of a side has a given peer entry as live partner;
+* so if both `X[p]` (remote `q`, a half alive) and `Y[q]` are connected, `Y[q].remote = p`.
+A port whose partner is gone (freed on the other side) has dropped both local halves. -/
+theorem pairs_right_global (mpA cqA mpB cqB : Nat) (ls : List (Who × Lab)) :
+    let s := run (init mpA cqA mpB cqB) ls
+    (∀ p c, lookup s.a.ep.ports p = some (.connected c) →
+        (c.senderDropped = false ∨ c.receiverDropped = false) → Live s.b.ep s.toB p c.remote) ∧
+    (∀ p c, lookup s.b.ep.ports p = some (.connected c) →
+        (c.senderDropped = false ∨ c.receiverDropped = false) → Live s.a.ep s.toA p c.remote) ∧
+    (∀ p p' q, Live s.b.ep s.toB p q → Live s.b.ep s.toB p' q → p = p') ∧
+    (∀ p p' q, Live s.a.ep s.toA p q → Live s.a.ep s.toA p' q → p = p') := by
+  intro s
+  have hi := inv2_run _ ls (inv2_init mpA cqA mpB cqB)
+  refine ⟨fun p c hc hf => ?_, fun p c hc hf => ?_, fun p p' q h1 h2 => ?_, fun p p' q h1 h2 => ?_⟩
+  · rcases hf with hf | hf
+    · exact ((hi.pab.tx p c hc).sd0 hf).1
+    · exact ((hi.pab.tx p c hc).rd0 hf).1
+  · rcases hf with hf | hf
+    · exact ((hi.pba.tx p c hc).sd0 hf).1
+    · exact ((hi.pba.tx p c hc).rd0 hf).1
+  · exact Live.unique (reqInv_resp_nodup hi.r.ba) h1 h2
+  · exact Live.unique (reqInv_resp_nodup hi.r.ab) h1 h2
+
+/-- both entries connected and a half of `p` alive: they reference each other -/
+theorem pairs_mutual (mpA cqA mpB cqB : Nat) (ls : List (Who × Lab)) (p : Nat) (c d : Connected) :
+    let s := run (init mpA cqA mpB cqB) ls
+    lookup s.a.ep.ports p = some (.connected c) → (c.senderDropped = false ∨ c.receiverDropped = false) →
+    lookup s.b.ep.ports c.remote = some (.connected d) → d.remote = p := by
+  intro s hc hf hd
+  rcases (pairs_right_global mpA cqA mpB cqB ls).1 p c hc hf with ⟨d', hd', hr⟩ | ⟨hcn, _⟩
+  · have : s.b.ep = (run (init mpA cqA mpB cqB) ls).b.ep := rfl
+    rw [hd] at hd'; injection hd' with h; injection h with h; rw [h]; exact hr
+  · rw [hd] at hcn; simp at hcn
+
+/-- non-vacuity: after connect / accept / delivery of `PortOpened` the ports 1@A and 7@B reference
+each other; before the delivery the partner of 7@B is the connecting port 1@A with the answer in flight -/
+example :
+    let s := run (init 4 2 4 2) [(.A, .startConnect 1 true), (.A, .dispConn), (.B, .deliver), (.B, .takeReq true),
+      (.B, .acceptReq 1 7), (.B, .dispPort)]
+    lookup s.a.ep.ports 1 = some .connecting ∧ s.toA = [.portOpened 1 7] ∧
+    (connectedAt s.b.ep 7).map (·.remote) = some 1 ∧
+    (connectedAt (run s [(.A, .deliver)]).a.ep 1).map (·.remote) = some 7 := by
+  decide
+
+end Remoc.Table.Sys
+
+namespace Remoc.Table.Sys
+open Remoc.Wire Remoc.Table
+
+def peer : Who → Who
+  | .A => .B
+  | .B => .A
+
+theorem resolves_once_aux (s : St) (lg : List LogEvt) (hi : Inv5 s) (h1 : LogInv s lg) (h2 : LogInv2 s lg) :
+    (∀ x p, nResolved lg x p + pend (side s x) p = nStarted lg x p) ∧
+    (∀ x p, nResolved lg x p ≤ nStarted lg x p) ∧
+    (∀ x p, LogEvt.resolved x p .refusedLocally ∈ lg → (side s (peer x)).ep.listenerDropped = true) := by
+  refine ⟨h1, fun x p => by have := h1 x p; omega, fun x p hin => ?_⟩
+  have hr := h2 x p hin
+  have i3 := hi.i4.i3
+  cases x with
+  | A =>
+    have := i3.fba.lf; simp only [side] at hr; rw [hr] at this
+    cases hl : s.b.ep.listenerDropped with
+    | true => simpa [side, peer] using hl
+    | false => simp [hl, b2n] at this
+  | B =>
+    have := i3.fab.lf; simp only [side] at hr; rw [hr] at this
+    cases hl : s.a.ep.listenerDropped with
+    | true => simpa [side, peer] using hl
+    | false => simp [hl, b2n] at this
+
+/-- **Every connect request resolves at most once, and is resolved or still pending** (ghost log,
+all interleavings).  `runL` records along the run `started x p` for every `Client::connect_ext` that
+queued a request for local port `p` and `resolved x p r` for every resolution: `PortOpened` /
+`Rejected` delivered for the connecting port `p` (the value is the content of the message), or the
+dispatcher answering the request itself because the remote listener is known to be dropped.  For
+every side and port number: resolutions + (1 if a request for it is queued or unanswered) =
+requests started — so no request is resolved twice and none is lost; and a request is refused
+locally only if the peer's listener really was dropped. -/
+theorem resolves_once (mpA cqA mpB cqB : Nat) (ls : List (Who × Lab)) :
+    let r := runL (init mpA cqA mpB cqB, []) ls
+    (∀ x p, nResolved r.2 x p + pend (side r.1 x) p = nStarted r.2 x p) ∧
+    (∀ x p, nResolved r.2 x p ≤ nStarted r.2 x p) ∧
+    (∀ x p, LogEvt.resolved x p .refusedLocally ∈ r.2 → (side r.1 (peer x)).ep.listenerDropped = true) := by
+  intro r
+  obtain ⟨hi, h1, h2⟩ := logInv_runL (init mpA cqA mpB cqB) [] ls (inv5_init mpA cqA mpB cqB)
+    (fun x p => by cases x <;> simp [nResolved, nStarted, pend, pending, side, init, initEp, connPorts, isConnecting, lookup])
+    (fun x p h => by simp at h)
+  exact resolves_once_aux _ _ hi h1 h2
+
+/-- the state component of the logged run is the plain run -/
+theorem resolves_once_state (mpA cqA mpB cqB : Nat) (ls : List (Who × Lab)) :
+    (runL (init mpA cqA mpB cqB, []) ls).1 = run (init mpA cqA mpB cqB) ls := runL_fst _ _ _
+
+/-- **At quiescence no request is pending unless the remote application holds it unanswered.**  In
+every reachable state in which the runtime has nothing left to do and neither endpoint has said
+`Goodbye`: a request of one side for port `p` is pending (queued or unanswered) exactly if it waits
+in the peer's listener queue or is held by the peer's application as a `Request` object. -/
+theorem pending_only_if_held (mpA cqA mpB cqB : Nat) (ls : List (Who × Lab)) :
+    let s := run (init mpA cqA mpB cqB) ls
+    Quiescent s → s.a.ep.goodbyeSent = false → s.b.ep.goodbyeSent = false →
+    (∀ p, pending s.a p = true ↔ (p ∈ s.b.ep.listenQ.map (·.1) ∨ p ∈ s.b.held)) ∧
+    (∀ p, pending s.b p = true ↔ (p ∈ s.a.ep.listenQ.map (·.1) ∨ p ∈ s.a.held)) := by
+  intro s hq ga gb
+  have hi := inv5_run _ ls (inv5_init mpA cqA mpB cqB)
+  obtain ⟨na, nb⟩ := hq.noInt
+  have v := hi.view
+  have core : ∀ {x y : Side} {wxy wyx : List Msg}, View x y wxy wyx → NoInt x wyx → NoInt y wxy →
+      x.ep.goodbyeSent = false → y.ep.goodbyeSent = false →
+      ∀ p, pending x p = true ↔ (p ∈ y.ep.listenQ.map (·.1) ∨ p ∈ y.held) := by
+    intro x y wxy wyx v nx ny gx gy p
+    obtain ⟨e1, e2⟩ := evt_ok y x wyx wxy v.ryx v.qx v.cx v.ax v.hx
+    obtain ⟨x1, _, _, x4⟩ := noInt_dispatching x wyx nx gx e1 e2
+    obtain ⟨f1, f2⟩ := evt_ok x y wxy wyx v.rxy v.qy v.cy v.ay v.hy
+    obtain ⟨_, y2, _, y4⟩ := noInt_dispatching y wxy ny gy f1 f2
+    have hgrx : x.ep.goodbyeReceived = false := by
+      cases hr : x.ep.goodbyeReceived with
+      | false => rfl
+      | true => simp [shouldTerminate, hr] at x4
+    have hgry : y.ep.goodbyeReceived = false := by
+      cases hr : y.ep.goodbyeReceived with
+      | false => rfl
+      | true => simp [shouldTerminate, hr] at y4
+    have hwx : wyx = [] := by
+      rcases noInt_wire x wyx nx (fun m rest hw => by
+          subst hw; exact rx_ok y x m rest wxy v.ryx v.rxy v.pyx v.fyx (v.ctlx m (by simp))) with h' | h'
+      · exact h'
+      · rw [hgrx] at h'; simp at h'
+    have hwy : wxy = [] := by
+      rcases noInt_wire y wxy ny (fun m rest hw => by
+          subst hw; exact rx_ok x y m rest wyx v.rxy v.ryx v.pxy v.fxy (v.ctly m (by simp))) with h' | h'
+      · exact h'
+      · rw [hgry] at h'; simp at h'
+    subst hwx; subst hwy
+    rw [pending_iff, x1]
+    simp only [connPorts, List.not_mem_nil, false_or]
+    rw [v.rxy.conn p]
+    simp only [reqWhere, reqPorts, respPorts, List.nil_append, List.append_nil]
+    rw [← v.rxy.outMem p]
+    simp [outWhere, y2, ansPorts]
+  exact ⟨core v na nb ga gb, core v.swap nb na gb ga⟩
+
+/-- non-vacuity: one request accepted and delivered (resolved once), one answered locally after the
+peer's `ListenerFinish`, one still waiting in the peer's listener queue -/
+example :
+    let r := runL (init 4 2 4 2, []) [(.A, .startConnect 1 true), (.A, .dispConn), (.B, .deliver), (.B, .takeReq true),
+      (.B, .acceptReq 1 7), (.B, .dispPort), (.A, .deliver), (.A, .startConnect 2 true), (.A, .dispConn), (.B, .deliver),
+      (.B, .startConnect 5 true), (.A, .dropListener), (.A, .dispListener), (.B, .deliver), (.B, .dispConn)]
+    r.2 = [.started .A 1, .resolved .A 1 (.accepted 7), .started .A 2, .started .B 5, .resolved .B 5 .refusedLocally] ∧
+    pending r.1.a 2 = true ∧ r.1.b.ep.listenQ = [(2, true)] := by
+  decide
+
+end Remoc.Table.Sys
+
+namespace Remoc.Table.Sys
+open Remoc.Wire Remoc.Table
+
+/-- **An `accepted` resolution matches what the peer did**: whenever a `PortOpened cp sp` is in
+flight towards a side (in particular when it is about to be delivered and logged as
+`resolved _ cp (accepted sp)`), the peer's table holds the port `sp` that its listener side created
+for this request: connected to `cp`, with no remote flag set, and nothing has been sent for it yet. -/
+theorem accepted_matches_peer (mpA cqA mpB cqB : Nat) (ls : List (Who × Lab)) (x : Who) (cp sp : Nat) :
+    let s := run (init mpA cqA mpB cqB) ls
+    Msg.portOpened cp sp ∈ wireTo s x →
+    ∃ d, lookup (side s (peer x)).ep.ports sp = some (.connected d) ∧ d.remote = cp ∧
+      d.remoteSendFinished = false ∧ d.remoteRecvDropped = false := by
+  intro s hin
+  have hi := inv2_run _ ls (inv2_init mpA cqA mpB cqB)
+  cases x with
+  | A =>
+    obtain ⟨d, h1, h2, h3, _, h5, _⟩ := hi.ob cp sp hin
+    exact ⟨d, h1, h2, h3, h5⟩
+  | B =>
+    obtain ⟨d, h1, h2, h3, _, h5, _⟩ := hi.oa cp sp hin
+    exact ⟨d, h1, h2, h3, h5⟩
+
+end Remoc.Table.Sys
